@@ -297,6 +297,36 @@ pub fn build_drefwalk(k: u32) -> Vec<u8> {
     out
 }
 
+/// fragment-walk-to-the-end variant: K movie fragment boxes of 32 bytes (header, mfhd, and the HEADER of a
+/// track fragment box whose size reaches to the end of the file), each followed by a 16-byte tfhd.  A reader
+/// that checks a child against its parent rejects the first one; one that does not parses the rest of the
+/// file as the children of every track fragment in turn, K times.
+pub fn build_moofwalk(k: u32) -> Vec<u8> {
+    let mut out = ser(&FtypBox { major_brand: FourCC::from(*b"isom"), minor_version: 0, compatible_brands: vec![] });
+    let mut moov = MoovBox::default();
+    moov.mvhd.timescale = 1000;
+    moov.mvhd.next_track_id = 2;
+    moov.traks.push(trak(1, 4, false));
+    let mut mvex = MvexBox::default();
+    mvex.trex.track_id = 1;
+    moov.mvex = Some(mvex);
+    out.extend_from_slice(&ser(&moov));
+    let total = out.len() + 48 * k as usize;
+    for i in 0..k {
+        let mut mfhd = MfhdBox::default();
+        mfhd.sequence_number = i + 1;
+        let mut moof = ser(&mfhd);
+        let traf_start = out.len() + 8 + moof.len();
+        moof.extend_from_slice(&((total - traf_start) as u32).to_be_bytes());
+        moof.extend_from_slice(b"traf");
+        out.extend_from_slice(&bx(b"moof", &moof));
+        let mut tfhd = vec![0u8; 4];
+        tfhd.extend_from_slice(&1u32.to_be_bytes());
+        out.extend_from_slice(&bx(b"tfhd", &tfhd));
+    }
+    out
+}
+
 /// tracks x fragments variant: T tracks and F movie fragments of one tiny track fragment each.  What
 /// open() builds should be linear in the file (T + F); a reader that reserves per-track room
 /// for every fragment needs T x F.
@@ -371,6 +401,7 @@ pub fn run(tn: u32, k: u32, kind: &str, id: u64, out: &mut Out) {
         "esds4" => build_esds_at(tn, k as usize * 1024, true),
         "fragwalk" => build_fragwalk(tn, k),
         "drefwalk" => build_drefwalk(tn),
+        "moofwalk" => build_moofwalk(tn),
         "tracksmoofs" => build_tracks_moofs(tn, k),
         x if x.starts_with("tbl-") => build_tables(x, tn, k as usize * 1024),
         _ => build(tn, k, kind == "avc"),
